@@ -52,6 +52,7 @@ const (
 	kpPorcupineChecked
 	kpSendErrno
 	kpImmutableKernel
+	kpRecvSpoofMulticast
 	nKProbes
 )
 
@@ -62,7 +63,7 @@ var kProbeNames = []string{"unsolicited_record_skipped_inside_call", "eagain_x9_
 	"waitacks_with_nothing_pending", "waitacks_called_again_after_error", "repeated_close_was_noop", "second_close_blocked_in_once",
 	"close_cleared_pid", "getrules_buffer_overwritten_later", "sends_overlapped_in_time", "receive_short_datagram", "receive_foreign_port_id",
 	"receive_non_netlink_address", "short_after_long_datagram", "send_payload_8970", "send_with_caller_pid", "porcupine_histories_checked",
-	"sendto_failed", "kernel_immutable"}
+	"sendto_failed", "kernel_immutable", "receive_foreign_port_id_with_group_mask"}
 
 var kFaultNames = []string{"injected_errno", "unsolicited_records", "stale_reply", "delayed_reply", "truncated_or_padded_reply", "spoofed_datagram",
 	"recv_eintr", "recv_eagain_injected", "recv_eagain_natural", "sendto_errno", "concurrent_close_tasks", "concurrent_send_tasks"}
@@ -1224,10 +1225,19 @@ func (c *kctx) execRecvRaw(i int, op KOp) {
 	}
 	var fromPid uint32
 	nonNL := false
+	groups := (op.C >> 9) & 0xff
+	if (op.C>>17)&1 == 0 {
+		groups = 0
+	}
 	switch op.B {
+	case 0:
+		fromPid = groups << 8 // the kernel, possibly as a multicast (port id 0, group mask set)
 	case 1:
-		fromPid = 4000 + uint32(i)
+		fromPid = (200+uint32(i))&0xff | groups<<8 | 1<<24
 		c.res.Probes[kpRecvSpoofPid]++
+		if groups != 0 {
+			c.res.Probes[kpRecvSpoofMulticast]++
+		}
 	case 2:
 		nonNL = true
 		c.res.Probes[kpRecvNonNetlink]++
